@@ -10,7 +10,8 @@ Record run_obs := { r_method : N; r_src : val; r_n0 : N;
                     r_out : option val;                 (* None = the call panicked *)
                     r_shared : list (list pstep);       (* result positions whose address belongs to the source *)
                     r_ctx : ctxs;                       (* values passed for the context parameters, by type *)
-                    r_err : option (N * list (list delem)) }.  (* the call returned an error: failing function, Wrap paths outermost first *)
+                    r_err : option (N * list (list delem));
+                    r_anyerr : bool }.    (* the source holds a map with several entries: Go visits them in random order, so which of several failing entries reports first is not determined; only the presence of an error is compared *)  (* the call returned an error: failing function, Wrap paths outermost first *)
 
 (* a declared method as written: signature and its goverter: lines (text after the prefix) *)
 Record decl_src := { ds_name : rstr; ds_src : ty; ds_tgt : ty; ds_update : bool; ds_lines : list rstr;
@@ -62,7 +63,7 @@ Definition delem_eqb (a b : delem) : bool :=
 Definition err_matches (er : errv) (obs : N * list (list delem)) : bool :=
   (er_fn er =? fst obs) && list_eqb (list_eqb delem_eqb) (er_wraps er) (snd obs).
 Definition check_err (er : errv) (r : run_obs) : list N :=
-  match r_err r with Some obs => if err_matches er obs then [] else [10] | None => [9] end.
+  match r_err r with Some obs => if r_anyerr r || err_matches er obs then [] else [10] | None => [9] end.
 
 Definition check_run (e : env) (tab : table) (F : ftable) (r : run_obs) : list N :=
   match r_pre r with
